@@ -1,0 +1,20 @@
+//go:build verif
+
+// Contracts for the deductive verifier under /verif (comment-only file).
+package unquote
+
+// intoBytesUnsafe (C06: the native routine is given a destination with at least as much
+// room as the input is long - its output is never longer -, so nothing is written past the
+// capacity of *m; C05: it is handed exactly the bytes of s): on success *m is the same
+// array with the decoded length.
+//@ func intoBytesUnsafe props C06,C05,C20
+//@   requires m != nil && cap(*m) >= len(s)
+//@   modifies *m, (*m)[_]
+//@   ensures result == 0 ==> (0 <= len(*m) && len(*m) <= len(s) && base(*m) == old(base(*m)))
+//@   ensures result != 0 ==> same(*m, old(*m))
+//@ func IntoBytes props C06,C20
+//@   requires m != nil
+//@   modifies *m, (*m)[_]
+//@   ensures result == 0 ==> (len(*m) <= len(s) && base(*m) == old(base(*m)))
+//@ func String props C06,C20
+//@   ensures err == 0 ==> len(ret) <= len(s)
